@@ -557,6 +557,44 @@ func (s *LSpec) genLexInputs(r *Rng, n int) [][]byte {
 			}
 		}
 	}
+	// deep nesting: follow rules that push a mode (and do not pop) forty times in a row (a mode stack of any depth)
+	if len(s.Modes) > 1 {
+		var cs []int
+		cur, depth := 0, 0
+		for depth < 40 {
+			var next *LRule
+			tgt := -1
+			for _, ru := range s.Modes[cur].Rules {
+				pushes, pops, t := 0, 0, -1
+				for _, a := range ru.Acts {
+					if a.Kind == "push" {
+						pushes++
+						t = a.Mode
+					}
+					if a.Kind == "pop" {
+						pops++
+					}
+				}
+				if pushes == 1 && pops == 0 && !s.nullable(ru.Expr) {
+					next, tgt = ru, t
+					break
+				}
+			}
+			if next == nil {
+				break
+			}
+			s.sampleExpr(r, next.Expr, &cs, 2)
+			cur = tgt
+			depth++
+		}
+		if depth >= 33 {
+			b := encodeRunes(cs)
+			if !seen[string(b)] && len(b) <= 4000 {
+				seen[string(b)] = true
+				ins = append(ins, b)
+			}
+		}
+	}
 	n += len(ins)
 	var allRules []*LRule
 	for _, m := range s.Modes {
